@@ -56,6 +56,24 @@ def scenarios(rep, tier, seed):
         scn["history"] = ["reload"] if i % 3 else ["prepredict", "reload"]
         scn["prefit"] = None
         scns.append(scn)
+    # histogram-like data (exact zeros) under the EPSILON-shifted ratio metrics: the k nearest are the k nearest by the metric's values on
+    # the caller's samples, however many evaluations those samples have already been through
+    import numpy as _np
+    import supcommon as _S
+    rng6 = random.Random(seed * 1000003 + 1416)
+    for i in range(120 if thorough else 30):
+        met = _S.ZERO_TOLERANT_METRICS[i % len(_S.ZERO_TOLERANT_METRICS)]
+        scn = K.random_scenario(rng6, "unsup" if i % 2 else "knn", metric=met, n=rng6.randrange(6, 13), nq=10, positive=True, mode="metric")
+        scn["prefit"] = None
+        Z = _np.array(scn["Z"])
+        if Z.shape[1] < 3:
+            Z = _np.hstack([Z, Z[:, :1] * 0.5 + 0.1, Z[:, :1] * 0.25 + 0.2])
+        r_ = _np.random.default_rng(rng6.randrange(2 ** 31))
+        mask = r_.random(Z.shape) < 0.4
+        mask[_np.arange(len(Z)), r_.integers(0, Z.shape[1], size=len(Z))] = False      # no all-zero sample
+        Z[mask] = 0.0
+        scn["Z"] = Z.tolist()
+        scns.append(scn)
     # integer-typed training samples, real-valued validation samples and queries
     scns += K.mixed_dtype_scenarios(random.Random(seed * 1000003 + 1415), 120 if thorough else 30)
     # KNN-supervised on pre-computed matrices with permuted index arrays (queries = rows of the matrix)
